@@ -87,7 +87,8 @@ PROPS = {
         level_text="Proof: in every reachable state of every interleaving of any number of threads of the lock protocol a close frame is last on the wire, nothing is appended after it and later writers fail (WS.Props.C09, Lean kernel). The protocol is tied to today's Conn.write/WriteControl by WellLocked decided over statement skeletons regenerated from /repo, and the sequential model is tied by differential runs (close sent at every step of random programs, transport faults).",
         level_note="Assumes Go channel/mutex atomicity as modelled; model of conn.go hand-written (tie: factgen skeletons + harness); flate is an environment answer.",
         lean=["WS.Props.C09"],
-        streams=[("wclose", 800, 12000), ("wfault", 400, 6000)],
+        streams=[("wclose", 800, 12000), ("wfault", 400, 6000), ("sched", 80, 1500)],
+        race=[("sched", 200)],
         assumptions=["Go channel send/receive on c.mu and sync.Mutex are the atomic actions of WS.Model.Sched (Go runtime, not verified)", ASSUME_FLATE],
     ),
     "C10": P(
@@ -95,7 +96,7 @@ PROPS = {
         level_text="Proof: for every program, every fault script (error/timeout/short write at any transport call) and every environment answer the accepted bytes are whole frames followed by at most one incomplete write, after the first failure nothing reaches the transport and every later write (incl. Close of an open writer) fails; invalid requests change nothing; each frame is written as SetWriteDeadline(d) then Write(s) with d the connection's deadline, resp. WriteControl's argument. Tie: random programs x every transport-call index up to 12 x {error, timeout, short write}, exact transport call log compared.",
         level_note="Sequential model (one writer goroutine); concurrency is C09/C11.",
         lean=["WS.Props.C10"],
-        streams=[("wfault", 1100, 20000), ("w", 300, 4000)],
+        streams=[("wfault", 1100, 20000), ("w", 300, 4000), ("sched", 80, 1500)],
         assumptions=[ASSUME_FLATE],
     ),
     "C11": P(
@@ -103,7 +104,8 @@ PROPS = {
         level_text="Proof: in every reachable state of every interleaving of any number of threads, with the transport accepting each frame in any number of parts, the parts of a frame are contiguous on the wire (control frames only between whole frames); a WriteControl that gives up waiting writes nothing, does not poison the connection, and can always give up even while the writer is blocked inside the transport; mutual exclusion. Translator tie: the atomic actions are those of today's Conn.write / WriteControl (C09.WellLocked over regenerated skeletons); lock_discipline is decided over the field-access table regenerated from the source (every mutable Conn field is touched only by functions of its owning role, the mutex and writeErr only by the four protocol functions; PreparedMessage.frames/once only by frame). Exploration: forced schedules with real goroutines (writer parked inside the transport, 0-6 WriteControl callers with 25 ms / 5 s deadlines, a close among them); thorough adds a -race build of the same runs when the toolchain supports it.",
         level_note="Partial: the Go memory model, scheduler, timers, sync.Pool and sync.Once are not modelled; data-race freedom is argued from the ownership table plus -race runs, not proved. The sched stream has no model side (outcomes are schedule dependent); it is judged by the RFC oracle.",
         lean=["WS.Props.C11"],
-        streams=[("sched", 60, 1500), ("prep", 150, 2000)],
+        streams=[("sched", 60, 1500), ("conc", 60, 1000), ("prep", 150, 2000)],
+        race=[("sched", 300), ("conc", 300)],
     ),
     "C12": P(
         technique="Lean 4 theorems over the decision function of Upgrade + decide over the regenerated rejection chain + differential correspondence with grammar-level oracles",
@@ -140,6 +142,7 @@ PROPS = {
         level_note="Partial: operations inside crypto/tls and the SOCKS5 client are observed in C18's matrix, not modelled; that a context deadline interrupts a TLS handshake is the Go runtime's.",
         lean=["WS.Props.C16"],
         streams=[("hsfault", 6, 6), ("matrix", 60, 400)],
+        exhaustive=True,
     ),
     "C17": P(
         technique="Lean 4 theorem over brNetConn (all read-size sequences) composed with the bufio stream law + split enumeration by differential correspondence",
@@ -161,7 +164,8 @@ PROPS = {
         level_text="Proof: the cache key is computed from the connection's role and compression settings at the time of the call; an uncompressed image is what WriteMessage writes on a fresh connection of that role and decodes to exactly one message with the type and payload given at creation, for every size (beyond the 4096-byte internal buffer) and either role; sending never changes a cached entry nor the type/payload; a new entry is the rendering of exactly its key; a compressed image is cached only if it decodes to one well-formed compressed message whose payload is the deflate stream minus its tail; a hit is sent in one transport write under the connection's deadline. Tie: one or more PreparedMessages shared by 1-4 connections of random roles / compression settings / levels, random order, toggles between sends; exact wire bytes compared with the model (mask keys of rendered client frames included); independent decoder + inflater: wire message = (type, payload at creation).",
         level_note="Compressed images are environment answers validated by imageOk (frame boundaries depend on flate's chunking); concurrent first use of a key relies on sync.Once / sync.Mutex (C11 table: frames/once only in frame).",
         lean=["WS.Props.C19"],
-        streams=[("prep", 800, 16000), ("w", 300, 4000)],
+        streams=[("prep", 800, 16000), ("w", 300, 4000), ("conc", 60, 1000)],
+        race=[("conc", 300)],
         assumptions=[ASSUME_FLATE],
     ),
     "C20": P(
@@ -169,7 +173,8 @@ PROPS = {
         level_text="Proof: for every program (invalid requests, abandoned writers) and every transport fault script on a pooled connection, Get/Put are balanced, a buffer is held only while a message writer is live, at most one writer is live, nothing is held between messages and no nil buffer is ever put back. Tie: instrumented LIFO pool shared by 1-4 connections that poisons buffers on Put and checks the poison on Get; Get/Put log (with buffer identities) compared with the model exactly; wire of every sharing connection judged by the RFC decoder.",
         level_note="Theorem for connections without negotiated compression (with compression the invariant needs consistency of the flate answers; that part is covered by correspondence only). Concurrent sharing relies on the pool's own synchronisation (sync.Pool).",
         lean=["WS.Props.C20"],
-        streams=[("w", 600, 10000), ("wfault", 400, 8000)],
+        streams=[("w", 600, 10000), ("wfault", 400, 8000), ("conc", 60, 1000)],
+        race=[("conc", 300)],
         assumptions=[ASSUME_FLATE],
     ),
 }
